@@ -476,6 +476,24 @@ fn run_case(cx: &CaseCtx, rep: &mut Report) {
 		("from_container filename=\"x\" | from_container filename=\"y\"".to_string(), "read operation in transform position"),
 		("from_container filename=\"x\" | vectortiles_update_properties".to_string(), "missing required parameter"),
 	];
+	// the same defects inside a source list, next to members that are fine, at every position of the list
+	let mut bad_texts = bad_texts;
+	let broken: Vec<(String, &str)> = vec![
+		(format!("{unknown_name} filename=\"x\""), "unknown read operation in a source list"),
+		("from_container".to_string(), "missing required parameter in a source list"),
+		("from_debug format=pbf | filter_zoom min=abc".to_string(), "mistyped numeric parameter in a source list"),
+		(format!("from_debug format=pbf | {}", ident(&mut rng)), "unknown transform operation in a source list"),
+		("from_debug format=pbf | filter_bbox bbox=[1,2,3]".to_string(), "mistyped list parameter in a source list"),
+	];
+	for (b, why) in &broken {
+		for op in ["from_overlayed", "from_vectortiles_merged"] {
+			for pos in 0..3 {
+				let mut members = vec!["from_debug format=pbf".to_string(), "from_debug format=pbf | filter_zoom max=8".to_string()];
+				members.insert(pos, b.clone());
+				bad_texts.push((format!("{op} [ {} ]", members.join(", ")), why));
+			}
+		}
+	}
 	for (text, why) in bad_texts {
 		rep.eval();
 		rep.count("factory_rejections_checked", 1);
@@ -494,6 +512,8 @@ fn run_case(cx: &CaseCtx, rep: &mut Report) {
 		"from_container filename=x | filter_zoom",
 		"from_container filename=x | filter_bbox bbox=[-10,-10,10,10]",
 		"from_overlayed [ from_container filename=a, from_container filename=b | filter_zoom min=2 ]",
+		"from_vectortiles_merged [ from_debug format=pbf, from_debug format=pbf | filter_zoom max=8 ]",
+		"from_overlayed [ from_debug format=pbf, from_overlayed [ from_debug format=pbf, from_debug format=pbf ] ]",
 	] {
 		rep.eval();
 		rep.count("factory_accepts_checked", 1);
@@ -505,6 +525,38 @@ fn run_case(cx: &CaseCtx, rep: &mut Report) {
 	}
 	if !cx.tier.is_tiny() {
 		transform_order(cx, rep, &mut rng);
+	}
+	// a long run of rejected texts (a user correcting a file, a service validating uploads) leaves nothing behind:
+	// the well-formed text after them parses as it did before them. The failures lie inside source lists, at
+	// several depths.
+	cx.progress("valid text after many rejected ones");
+	let canary = "from_overlayed [ from_container filename=a | filter_zoom min=1, from_overlayed [ from_container filename=b, from_container filename=c ] ] | filter_zoom max=9";
+	let before = guard::catch(|| parse_vpl(canary).map(|t| format!("{t:?}")));
+	let rejected = [
+		"from_overlayed [ from_container filename=a, from_container filename= ]",
+		"from_overlayed [ from_container filename=a; from_container filename=b ]",
+		"from_overlayed [ from_container filename=a, from_container filename=\"b ]",
+		"from_overlayed [ from_container filename=a, from_overlayed [ from_container filename=b, from_container = ] ]",
+		"from_overlayed [ from_container filename=a, from_overlayed [ from_container filename=b, from_container filename=c ]",
+		"from_overlayed [ a [ b [ c [ d [ e [ f [ g [ h = ] ] ] ] ] ] ] ]",
+	];
+	let n = cx.tier.pick(150, 600);
+	for i in 0..n {
+		let t = rejected[i as usize % rejected.len()];
+		rep.eval();
+		if let Ok(Ok(got)) = guard::catch(|| parse_vpl(t)) {
+			rep.violation("invalid-accepted|defect inside a source list", "text outside the syntax accepted", json!({"text": t, "got": format!("{got:?}")}));
+			break;
+		}
+	}
+	rep.count("rejected_texts_in_a_row_before_a_valid_one", n as u64);
+	let after = guard::catch(|| parse_vpl(canary).map(|t| format!("{t:?}")));
+	match (before, after) {
+		(Ok(Ok(b)), Ok(Ok(a))) if a == b => {}
+		(Ok(Ok(_)), Ok(Ok(a))) => rep.violation("valid-parsed-differently|after rejected texts", "a well-formed text parses to another tree after a run of rejected texts", json!({"text": canary, "got": a})),
+		(Ok(Ok(_)), Ok(Err(e))) => rep.violation("valid-rejected|after rejected texts", "a well-formed text is rejected after a run of rejected texts on the same thread", json!({"text": canary, "rejected_before_it": n, "error": format!("{e:#}")})),
+		(_, Err(p)) => rep.violation(&p.signature("parse_vpl"), "parser panicked", json!({"text": canary, "panic": p.describe()})),
+		_ => {}
 	}
 }
 
